@@ -451,6 +451,20 @@ Definition lambda (opi : nat) (pod : name) (r : res) (plan : option (list (name 
   for_all (filter is_create_msg ms) (lambda_one stdin lines) ;;;
   send MClose.
 
+(* rpc/rpc.go RunAndWait, synchronous mode: the handler drains the message channel to its end and
+   tries to send every message on the gRPC stream; a failed Send is logged and the loop goes on (a loop
+   that stopped at the first failed Send would leave the lambda closures blocked on the channel: no removal,
+   no WAL commit, no close).  [attempted] is what the handler passes to Send, [delivered] what reaches a
+   client whose stream breaks at message [fail_from] (1-based; 0 = never). *)
+Fixpoint rpc_forward (ms : list msg) (n fail_from : nat) : list msg * list msg :=
+  match ms with
+  | [] => ([], [])
+  | m :: rest =>
+    let r := rpc_forward rest (S n) fail_from in
+    let broken := negb (Nat.eqb fail_from 0) && Nat.leb fail_from (S n) in
+    (m :: fst r, if broken then snd r else m :: snd r)
+  end.
+
 (* ---------------------------------------------------------------- replace.go *)
 
 Definition do_replace (opi index : nat) (old : wl) : cprog (option wid * bool * oerr) :=
